@@ -133,6 +133,7 @@ func pathOf(c store.Cursor) (Path, bool) {
 	if c == nil {
 		return nil, false // a nil cursor in a result: reported as "?" and compared like any other answer
 	}
+	c = unview(c)
 	for depth := 0; ; depth++ {
 		if depth > 100000 {
 			return nil, false
@@ -315,6 +316,9 @@ func showNum(f float64) string {
 // projectResult renders an Exec outcome in the model's answer format.
 func projectResult(r xsel.Result, err error) string {
 	if err != nil {
+		if m, ok := isRoute(err); ok {
+			return m
+		}
 		if strings.Contains(err.Error(), "xpath query panic") {
 			return "E panic " + err.Error()
 		}
